@@ -46,11 +46,31 @@ def msgConcreteInModule : String :=
   "Using concrete dependencies in a module is an anti-pattern. Instead, write a trait manually, use the #[entrait] attribute on it, and implement it for your application type"
 def msgConcreteInImpl : String := "Cannot (yet) use concrete dependency in an impl block"
 
-/-- `deps_with_generics`: all type and const parameters and all where predicates go to the trait. -/
+/-- the lifetimes written in a token list (`'name`), in order of appearance -/
+def lifetimesIn : Toks → List String
+  | [] => []
+  | .punct '\'' :: .ident n :: rest => n :: lifetimesIn rest
+  | .group _ g :: rest => lifetimesIn g ++ lifetimesIn rest
+  | _ :: rest => lifetimesIn rest
+
+def GParam.lifetimeName? : GParam → Option String
+  | .lt _ n _ _ => some n
+  | _ => none
+
+/-- the lifetime parameters a function declares -/
+def Generics.lifetimeNames (g : Generics) : List String := g.params.filterMap GParam.lifetimeName?
+
+/-- A where-predicate is lifted to the trait only if it does not talk about a lifetime parameter of
+    the function: those parameters stay on the method, and so does the predicate (it is on the method
+    in any case; the trait could not name the lifetime). -/
+def liftable (g : Generics) (q : WherePred) : Bool :=
+  !(lifetimesIn q.print).any (fun n => g.lifetimeNames.contains n)
+
+/-- `deps_with_generics`: all type and const parameters and the liftable where predicates go to the trait. -/
 def depsWithGenerics (g : Generics) (tg : TraitGenerics) : TraitGenerics :=
   { tg with
     params := tg.params ++ g.params.filter (fun q => !q.isLifetime)
-    preds := tg.preds ++ g.preds }
+    preds := tg.preds ++ g.preds.filter (liftable g) }
 
 /-- Where-clause walk of `find_deps_generic_bounds`: returns (extra deps bounds, predicates lifted
     to the trait). -/
@@ -86,7 +106,7 @@ def findDepsGenericBounds (g : Generics) (ident : String) (tg : TraitGenerics) :
       let others := (dropIdx g.params idx).filter (fun q => !q.isLifetime)
       let (extra, lifted) := walkWhere ident g.preds
       some (.generic (some ident) (direct ++ extra),
-            { tg with params := tg.params ++ others, preds := tg.preds ++ lifted })
+            { tg with params := tg.params ++ others, preds := tg.preds ++ lifted.filter (liftable g) })
 
 def extractDepsFromType (g : Generics) (tg : TraitGenerics) : Ty → Except PErr (FnDeps × TraitGenerics)
   | .implTrait bounds _ => .ok (.generic none bounds, depsWithGenerics g tg)
